@@ -37,29 +37,6 @@ let flag_tok = function FExact -> "Exact" | FInexact r -> flag_name r | FUnknown
 
 let digits_len b v = Zar.to_int (dlen b v)
 
-(* Debug output is only compared at the level of its shape: "<sig> * <B> ^ <exp>[ (prec: <p>)]",
-   the significand possibly abbreviated as "<head>..<tail>" by the integer Debug printer *)
-let check_debug ~alt ~repr b s e p (text : string) : bool =
-  let dec = Zar.to_string s in
-  let sig_ok shown =
-    match Str.bounded_split_delim (Str.regexp_string "..") shown 2 with
-    | [ full ] -> full = dec
-    | [ head; tail ] ->
-        let n = String.length dec and h = String.length head and t = String.length tail in
-        h + t <= n && String.sub dec 0 h = head && String.sub dec (n - t) t = tail
-    | _ -> false in
-  if alt then begin
-    (* pretty form: check the fields that carry the value *)
-    let contains sub = try ignore (Str.search_forward (Str.regexp_string sub) text 0); true with Not_found -> false in
-    contains (Printf.sprintf "exponent: %s ^ %s" (Zar.to_string b) (Zar.to_string e))
-    && (repr || contains (Printf.sprintf "precision: %s" (Zar.to_string p)))
-    && contains "significand: "
-  end else begin
-    let tail = Printf.sprintf " * %s ^ %s" (Zar.to_string b) (Zar.to_string e) ^ (if repr then "" else Printf.sprintf " (prec: %s)" (Zar.to_string p)) in
-    let n = String.length text and t = String.length tail in
-    n > t && String.sub text (n - t) t = tail && sig_ok (String.sub text 0 (n - t))
-  end
-
 (* as-is models (Float/TextIoModel.v): fidelity statistic only, never the verdict *)
 module Asis = struct
   let show_parse = function
@@ -70,16 +47,84 @@ module Asis = struct
   let print (op : string) b m f s e prec : Zar.t list option =
     match op with
     | "disp" | "disp_repr" -> Some (fmt_round_asis b m f s e prec)
-    | _ when f.f_width = None ->
-        let upper = (op = "uexp" || op = "uexp_repr") in
-        Some ((if Zar.sign s < 0 then [ zi 45 ] else if f.f_plus then [ zi 43 ] else []) @ sci_body_asis b m upper s e prec)
-    | _ -> None
+    | _ -> Some (sci_asis b m (op = "uexp" || op = "uexp_repr") f s e prec)
   let with_precision b p0 p m s e =
     let ((s', e'), f) = with_precision_asis b p0 p m s e in
     Printf.sprintf "ok %s %s %s %s" (hx s') (hx e') (flag_tok f) (hx p)
 end
 
-let threshold_small_exp = zi 38
+(* ---------------------------------------------------------------------------------------------
+   The ln/exp route of convert_base as it is (Float/LargeExpAsis.v over the C11 as-is models of
+   Float/ElemAsis.v).  The f32 estimate layer (Float/ElemF32.v, abstract in Coq) is instantiated with
+   IEEE single arithmetic exactly as in oracle/driver_c11.ml: an f32 is an OCaml float holding a
+   single-precision value; + - * / are computed in double and rounded to single (innocuous double
+   rounding for these operations); log2 is the double log2 rounded to single (libm's log2f differs
+   from it by one ulp on rare arguments: such a case shows as asis=diff, never as a verdict). *)
+let r32 x = Int32.float_of_bits (Int32.bits_of_float x)
+let f_of_z (v : Zar.t) : Stdlib.Float.t =
+  if Zar.numbits v <= 53 then r32 (Zar.to_float v)
+  else begin
+    let av = Zar.abs v in
+    let sh = Zar.numbits av - 30 in
+    let top = Zar.shift_right av sh in
+    let top = if Zar.equal (Zar.shift_left top sh) av then top else Zar.logor top Zar.one in
+    let r = r32 (ldexp (Zar.to_float top) sh) in
+    if Zar.sign v < 0 then -. r else r
+  end
+let two64 = Zar.shift_left Zar.one 64
+let two63 = Zar.shift_left Zar.one 63
+let f_to_usize x =
+  if Stdlib.Float.is_nan x || x <= 0.0 then Zar.zero
+  else if x >= 18446744073709551616.0 then Zar.pred two64 else Zar.of_float (Stdlib.Float.trunc x)
+let f_to_isize x =
+  if Stdlib.Float.is_nan x then Zar.zero
+  else if x >= 9223372036854775808.0 then Zar.pred two63
+  else if x <= -9223372036854775808.0 then Zar.neg two63 else Zar.of_float (Stdlib.Float.trunc x)
+let next_up f =
+  let bits = Int32.bits_of_float f in
+  let abs = Int32.logand bits 0x7fff_ffffl in
+  Int32.float_of_bits (if abs = 0l then 1l else if bits = abs then Int32.add bits 1l else Int32.sub bits 1l)
+let next_down f =
+  let bits = Int32.bits_of_float f in
+  let abs = Int32.logand bits 0x7fff_ffffl in
+  Int32.float_of_bits (if abs = 0l then 0x8000_0001l else if bits = abs then Int32.sub bits 1l else Int32.add bits 1l)
+let f32 : Stdlib.Float.t f32ops =
+  { f_of_Z = f_of_z; f_log2 = (fun x -> r32 (Stdlib.Float.log2 x));
+    f_add = (fun a b -> r32 (a +. b)); f_sub = (fun a b -> r32 (a -. b));
+    f_mul = (fun a b -> r32 (a *. b)); f_div = (fun a b -> r32 (a /. b));
+    f_neg = (fun a -> -. a); f_ltb = (fun a b -> a < b);
+    f_to_usize = f_to_usize; f_to_isize = f_to_isize; f_next_up = next_up; f_next_down = next_down;
+    f_log10_2 = r32 0.301029995663981195213738894724493027; f_epsilon = ldexp 1.0 (-23); f_neg_inf = neg_infinity }
+let rec nat_of_int n acc = if n <= 0 then acc else nat_of_int (n - 1) (S acc)
+let fuel = nat_of_int 200000 O
+let word_bits = zi 64
+
+(* evaluation of the model under a wall-clock budget; None = not evaluated *)
+exception Budget
+let with_budget secs (f : unit -> 'a) : 'a option =
+  let old = Sys.signal Sys.sigalrm (Sys.Signal_handle (fun _ -> raise Budget)) in
+  let stop () =
+    ignore (Unix.setitimer Unix.ITIMER_REAL { Unix.it_interval = 0.0; it_value = 0.0 });
+    Sys.set_signal Sys.sigalrm old in
+  ignore (Unix.setitimer Unix.ITIMER_REAL { Unix.it_interval = 0.0; it_value = secs });
+  match f () with
+  | v -> stop (); Some v
+  | exception Budget -> stop (); None
+  | exception Stack_overflow -> stop (); None
+  | exception e -> stop (); raise e
+
+let large_budget = try float_of_string (Sys.getenv "VERIF_C08_LARGE_BUDGET") with _ -> 3.0
+(* Some conv = what the as-is model of Context::convert_base predicts on every route; None = not evaluated *)
+let full_asis b nb p m s e : conv option =
+  match convert_base_asis b nb p m s e with
+  | CLarge ->
+      if Zar.gt p (zi 700) then None
+      else (match with_budget large_budget (fun () -> convert_base_full_asis f32 word_bits fuel b nb p m s e) with
+            | Some CLarge -> None
+            | r -> r)
+  | r -> Some r
+
+let threshold_small_exp = threshold_small_exp_gen   (* regenerated from float/src/convert.rs *)
 (* error contract assumed for ln / exp / ln_base at the work precision, in units of the last place (ln_base of a
    power of two is a product, hence more than one unit) *)
 let k_contract = zi 4
@@ -121,22 +166,24 @@ let judge op args got =
       let asis = Asis.print op b m f s e prec in
       let fid = match asis with Some t -> " asis=" ^ (if [ "ok"; tok_of_bytes t ] = got then "same" else "diff") | None -> "" in
       let cls = "cls=" ^ (if rounded then "rounded" else "plain") ^ (if f.f_width <> None then "-width" else "") in
-      (* padding (width, fill, alignment, zero flag) is outside the property: the verdict is on sign + body *)
-      (match got with
-       | [ "ok"; t ] ->
-           let g = bytes_of_tok t in
-           if layout_ok f neg body g then
-             pass ~nt:true ~extra:(cls ^ (if f.f_width <> None then " path=" ^ (if g = want then "padding-as-core-fmt" else "padding-differs") else "") ^ fid) ()
-           else fail ("ok " ^ tok_of_bytes want)
-       | _ -> fail ("ok " ^ tok_of_bytes want))
+      (* the whole text is specified: sign, body, and the padding convention of core::fmt for numbers (pad_spec: the
+         zero flag pads with zeros after the sign and overrides fill and alignment; otherwise fill characters
+         according to the alignment, right by default) - since the repair F08 *)
+      ignore layout_ok;
+      expect ~nt:true ~extra:(cls ^ fid) ("ok " ^ tok_of_bytes want) got
   | "dbg" | "dbg_alt" | "dbg_repr" | "dbg_repr_alt" ->
+      (* Debug: the exact text of Float/DebugSpec.v (IBig's Debug at its C07 specification: 19 digits at each end
+         around ".." from 2^128 on) *)
       let (s, e) = norm (z (arg 2)) (z (arg 3)) in
-      (match got with
-       | [ "ok"; t ] ->
-           let text = string_of_bytes (bytes_of_tok t) in
-           let alt = (op = "dbg_alt" || op = "dbg_repr_alt") and repr = (op = "dbg_repr" || op = "dbg_repr_alt") in
-           if check_debug ~alt ~repr b s e (z (arg 4)) text then pass ~nt:false ~extra:"cls=debug-shape" () else fail "debug-shape"
-       | _ -> fail "ok-text")
+      let p0 = z (arg 4) in
+      let dpw = fst (radix_info (zi 64) (zi 10)) and t128 = Zar.shift_left Zar.one 128 in
+      let want = (match op with
+          | "dbg" -> fbig_debug_spec dpw t128 b s e p0
+          | "dbg_alt" -> fbig_debug_alt_spec dpw t128 b m s e p0
+          | "dbg_repr" -> repr_debug_spec dpw t128 b s e
+          | _ -> repr_debug_alt_spec dpw t128 b s e) in
+      let cls = "cls=debug-" ^ (if Zar.numbits s <= 128 then "all-digits" else "abbreviated") in
+      expect ~nt:true ~extra:cls ("ok " ^ tok_of_bytes want) got
   | "rt" | "rt_exp" ->
       let (s, e) = norm (z (arg 2)) (z (arg 3)) in
       let f = flags_of "-" None in
@@ -182,40 +229,110 @@ let judge op args got =
              let full = check_contract nb rp m x rs re fl in
              let exact = cmp_kx nb Zar.one x rs re = Eq in
              let cls = (if exact then "exact" else "inexact") ^ "-" ^ rf in
-             let fid = (match convert_base_asis b nb rp m s e with
-                 | CDone (s', e', f') -> " asis=" ^ (if Zar.equal s' rs && Zar.equal e' re && flag_tok f' = rf then "same" else "diff")
-                 | _ -> "") in
+             let asis = full_asis b nb rp m s e in
+             let asis_same = (match asis with
+                 | Some (CDone (s', e', f')) -> Some (Zar.equal s' rs && Zar.equal e' re && flag_tok f' = rf)
+                 | Some _ -> Some false
+                 | None -> None) in
+             let fid = (match asis_same with Some true -> " asis=same" | Some false -> " asis=diff" | None -> "") in
              if full then pass ~extra:("cls=" ^ cls ^ " path=" ^ route ^ fid) ()
              else if route = "large" && Zar.leq (dlen nb rs) (Zar.succ rp) then begin
-               (* open finding: the ln/exp route is not faithful.  No as-is model of the series exists; the class is
-                  the input route + an answer of the right shape inside the accuracy the STRUCTURE of the route
-                  guarantees when ln and exp err by at most k_contract units in the last place of the work precision
-                  (Float/LargeExpRoute.v convert_large_route_error, decided by large_route_check,
-                  large_route_check_sound); where the theorem guarantees nothing (precision too small for the
-                  size of the exponent: None) any answer of the right shape is in the class *)
+               (* open finding: the ln/exp route is not faithful.  The class is the input route + exactly the answer
+                  the as-is model of the route predicts (Float/LargeExpAsis.v on top of the C11 as-is models of ln /
+                  ln_base / exp).  Only where the model was not evaluated (budget) the class falls back on the
+                  accuracy the STRUCTURE of the route guarantees when ln and exp err by at most k_contract units
+                  in the last place of the work precision (LargeExpAsisProof.convert_large_route_error_wp,
+                  decided by large_route_check_wp, large_route_check_wp_sound) *)
                let (n, dv) = (match x with XRat (n, d) -> (n, d) | _ -> (Zar.zero, Zar.one)) in
                let within = if check_within_ulp nb rp x rs re then "within-1ulp" else "off-by-1ulp-or-more" in
-               match large_route_check k_contract b nb rp e n dv rs re with
+               let bound = (match large_route_check_wp k_contract b nb rp (large_work_precision_gen rp e b nb) e n dv rs re with
+                   | Some true -> "inside-proved-bound" | None -> "no-accuracy-guaranteed" | Some false -> "outside-proved-bound") in
+               match asis_same with
                | Some true ->
+                   (* the implementation returned exactly what the as-is model of the route predicts *)
                    { (known "convert_base_large_exp_not_faithful" "contract") with
-                     extra = "want=contract cls=large-" ^ within ^ " path=large-inside-proved-bound" }
+                     extra = "want=contract cls=large-" ^ within ^ " path=large-asis-" ^ bound ^ fid }
+               | Some false ->
+                   { v = "fail"; extra = "want=contract differs-from-the-as-is-model-of-the-ln/exp-route cls=" ^ cls ^ " path=" ^ route ^ fid }
                | None ->
-                   { (known "convert_base_large_exp_not_faithful" "contract") with
-                     extra = "want=contract cls=large-" ^ within ^ " path=large-no-accuracy-guaranteed" }
-               | Some false -> { v = "fail"; extra = "outside-the-proved-bound-of-the-ln/exp-route cls=" ^ cls ^ " path=" ^ route }
+                   (* model not evaluated (budget): the envelope the structure theorem gives *)
+                   if bound = "outside-proved-bound" then
+                     { v = "fail"; extra = "outside-the-proved-bound-of-the-ln/exp-route cls=" ^ cls ^ " path=" ^ route }
+                   else
+                     { (known "convert_base_large_exp_not_faithful" "contract") with
+                       extra = "want=contract cls=large-" ^ within ^ " path=large-envelope-" ^ bound }
              end
              else { v = "fail"; extra = "contract-violated cls=" ^ cls ^ " path=" ^ route }
            end
        | "panic" :: cl :: _ when route = "large" && Zar.sign (match fixed_p with Some p -> p | None -> p0) > 0
                                    && String.length cl >= 12 && String.sub cl 0 12 = "Undocumented" ->
-           (* repr_div's debug assertion inside the ln/exp route *)
-           { (known "convert_base_large_exp_not_faithful" "contract") with extra = "want=contract cls=large-debug-assertion path=" ^ route }
+           (* a debug assertion inside the ln/exp route: in the class only if the as-is model predicts it *)
+           let p = (match fixed_p with Some p -> p | None -> if Zar.sign p0 = 0 then Zar.zero else base_prec_spec b nb p0) in
+           (match full_asis b nb p m s e with
+            | Some (CPanic Undocumented) ->
+                { (known "convert_base_large_exp_not_faithful" "contract") with extra = "want=contract cls=large-debug-assertion path=large-asis asis=same" }
+            | None -> { (known "convert_base_large_exp_not_faithful" "contract") with extra = "want=contract cls=large-debug-assertion path=large-envelope" }
+            | Some _ -> { v = "fail"; extra = "want=contract panic-not-predicted-by-the-as-is-model path=large asis=diff" })
        | [ "panic"; "UnlimitedPrecision" ] ->
            let target_unlimited = match fixed_p with
              | Some p -> Zar.sign p = 0
              | None -> Zar.sign p0 = 0 || Zar.sign (base_prec_spec b nb p0) = 0 in
            if target_unlimited && not related then pass ~nt:false ~extra:"cls=unlimited-panic" () else fail "no-panic"
        | _ -> fail "ok-sig-exp-flag-prec")
+  | "wb_prec" ->
+      (* FBig::with_base's precision: the implementation reports the two f32 bounds it divides (public API) and the
+         precision it chose.  Premise (C12's contract, decided here by C12's bracket test log2_lb_dec): the bounds are
+         sound.  Verdict: the documented rule NewB^p' <= B^p, p' maximal or one less.  As-is: with_base_prec_code
+         (Float/WithBasePrec.v: IEEE division to nearest even, `as usize`) predicts p' exactly. *)
+      let nb = z (arg 2) and p0 = z (arg 3) in
+      (match got with
+       | "ok" :: lb :: ub :: rest ->
+           let lbz = z lb and ubz = z ub in
+           let prec = (match List.rev rest with "panic" :: _ -> None | pr :: _ -> Some (z pr) | [] -> None) in
+           let pmax = if Zar.sign p0 = 0 then Zar.zero else base_prec_spec b nb p0 in
+           if Zar.sign p0 = 0 then
+             (* B^0 = 1: lb = 0, the quotient is 0: unlimited target precision (panic unless power related) *)
+             (match prec with
+              | None -> if power_related b nb || Zar.equal b nb then fail "no-panic" else pass ~nt:false ~extra:"cls=wb-unlimited-panic" ()
+              | Some pr -> if Zar.sign pr = 0 then pass ~nt:false ~extra:"cls=wb-unlimited" () else fail "precision-0")
+           else
+           (match f32_pos_decode lbz, f32_pos_decode ubz with
+            | Some (m1, e1), Some (m2, e2) ->
+                let dy m e = if Zar.sign e >= 0 then (Zar.mul m (Zar.pow (zi 2) (Zar.to_int e)), 0) else (m, - (Zar.to_int e)) in
+                let (lm, lk) = dy m1 e1 and (um, uk) = dy m2 e2 in
+                let bp = Zar.pow b (Zar.to_int p0) in
+                let rec dec m k p q = function
+                  | [] -> None
+                  | pr :: more -> (match log2_lb_dec (zi pr) m (nat_of_int k O) p q with Some v -> Some v | None -> dec m k p q more) in
+                let lb_ok = dec lm lk bp Zar.one [ 96; 256; 1024; 4096 ] in
+                let ub_ok = dec (Zar.neg um) uk Zar.one nb [ 96; 256; 1024; 4096 ] in
+                if lb_ok = Some false || ub_ok = Some false then
+                  { v = "fail"; extra = "want=log2_bounds-sound(C12) lb=" ^ lb ^ " ub=" ^ ub }
+                else begin
+                  let sound = if lb_ok = Some true && ub_ok = Some true then "bounds-sound" else "bounds-undecided" in
+                  let pred = with_base_prec_code lbz ubz in
+                  let l = wb_L m1 e1 e2 and u = wb_U e1 m2 e2 in
+                  let x = Zar.div l u in
+                  let (fid, path) = (match pred, prec with
+                      | Some ((_, _), p'), Some pr ->
+                          ((if Zar.equal p' pr then " asis=same" else " asis=diff"),
+                           (if Zar.equal p' x then "floor-of-exact-quotient" else if Zar.equal p' (Zar.succ x) then "rounded-up-to-integer" else "other"))
+                      | Some ((_, _), p'), None ->
+                          ((if Zar.sign p' = 0 then " asis=same" else " asis=diff"), "quotient-below-one")
+                      | None, _ -> ("", "undecodable")) in
+                  (match prec with
+                   | None ->
+                       if Zar.sign pmax = 0 || Zar.equal pmax Zar.one then
+                         (if power_related b nb || Zar.equal b nb then fail "no-panic"
+                          else pass ~nt:false ~extra:("cls=wb-precision-0-panic path=" ^ path ^ fid) ())
+                       else fail "precision-rule NewB^p'<=B^p, maximal or one less"
+                   | Some pr ->
+                       if Zar.gt pr pmax then fail "precision-rule NewB^p'<=B^p"
+                       else if Zar.lt pr (Zar.pred pmax) then fail "precision maximal or one less"
+                       else pass ~extra:("cls=wb-" ^ (if Zar.equal pr pmax then "maximal" else "one-less") ^ "-" ^ sound ^ " path=" ^ path ^ fid) ())
+                end
+            | _ -> fail "positive-finite-bounds")
+       | _ -> fail "ok-lb-ub-prec")
   | "from_f32" | "from_f64" | "from_f32_repr" | "from_f64_repr" ->
       let bits = z (arg 2) in
       let mw, ew = if op = "from_f32" || op = "from_f32_repr" then (zi 23, zi 8) else (zi 52, zi 11) in
